@@ -52,7 +52,23 @@ pub fn compile_case(v: &Value) -> Value {
     let want_text = v.get("text").and_then(|x| x.as_bool()).unwrap_or(false);
     let render = v.get("render").and_then(|x| x.as_bool()).unwrap_or(true);
     let first = sources.first().cloned().unwrap_or_default();
-    let res = if backend == "ts" {
+    // sources given as files: written to a scratch directory and passed by path
+    let as_file = v.get("as_file").and_then(|x| x.as_bool()).unwrap_or(false);
+    let mut paths: Vec<std::path::PathBuf> = vec![];
+    if as_file {
+        let dir = std::env::temp_dir().join(format!("verif-harness-{}", std::process::id()));
+        let _ = std::fs::create_dir_all(&dir);
+        for (i, s) in sources.iter().enumerate() {
+            let p = dir.join(format!("src{i}.asn1"));
+            let _ = std::fs::write(&p, s);
+            paths.push(p);
+        }
+    }
+    let res = if as_file && backend != "ts" {
+        Compiler::<RasnBackend, _>::new_with_config(rasn_config(v))
+            .add_asn_sources_by_path(paths.iter())
+            .compile_to_string()
+    } else if backend == "ts" {
         let mut c = Compiler::<TypescriptBackend, _>::new().add_asn_literal(first.clone());
         for s in sources.iter().skip(1) {
             c = c.add_asn_literal(s.clone());
